@@ -131,10 +131,15 @@ def contact_case(draw):
     vals = st.sampled_from([0.1, 0.3, 0.45, 0.6, 0.8, 1.0])
     return {'gc': gc, 'xi': [draw(vals) for _ in nodes], 'zeta': [draw(vals) for _ in nodes], 'rule': draw(st.sampled_from(RULES)),
             'numtype': draw(st.sampled_from(['float', 'numpy', 'int-answer'])),
-            'dur': [draw(st.sampled_from([0, 0.5, 1, 2, 'inf'])) for _ in nodes],
-            'delay': [draw(st.sampled_from([0, 0.5, 1, 1.5, 3, 'inf'])) for _ in pairs],
+            'dur': [draw(st.sampled_from([0, 0.5, 1, 2, 'inf', 0.5, 1, 2, 'nan'])) for _ in nodes],         # nan: missing data; `delay <= duration` is then False
+            'delay': [draw(st.sampled_from([0, 0.5, 1, 1.5, 3, 'inf', 0.5, 1, 1.5, 'nan'])) for _ in pairs],
+            'multi': draw(st.integers(0, 3)) == 0,          # contact network given as a MultiGraph with repeated edges (nx.configuration_model output)
             'p': draw(st.sampled_from([0.0, 1.0, 0.5, 0.3, 0.7])), 'tau': draw(gen.pos_rates), 'gamma': draw(gen.rates),
             'seed': draw(st.integers(0, 10 ** 6))}
+
+
+def _num(d):
+    return float(d) if isinstance(d, str) else d        # 'inf' / 'nan'
 
 
 def _spy(modname, fname, captured):
@@ -157,6 +162,15 @@ def prop_contact(case):
     nodes, adj = oracles.adjacency(gc)
     pairs = [(u, v) for u in nodes for v in adj[u]]
     G = oracles.build_graph(gc)
+    Gsimple = G
+    if case.get('multi') and not gc.get('directed'):
+        import networkx as _nx
+        G = _nx.MultiGraph()
+        G.add_nodes_from(Gsimple.nodes())
+        for k, (a, b) in enumerate(Gsimple.edges()):
+            G.add_edge(a, b)
+            if k % 2 == 0:
+                G.add_edge(b, a)            # a parallel edge: the same contact listed twice
     N = len(nodes)
     fails = []
     import numpy as _np
@@ -192,8 +206,8 @@ def prop_contact(case):
     except Exception as e:
         fails.append(Failure('%s:exception:%s' % (name, exc_signature(e)), 'raised %r' % (e,)))
     # the timing builder itself, with and without attributes
-    dur_ = {u: float('inf') if d == 'inf' else d for u, d in zip(nodes, case['dur'])}
-    delay_ = {p_: float('inf') if d == 'inf' else d for p_, d in zip(pairs, case['delay'])}
+    dur_ = {u: _num(d) for u, d in zip(nodes, case['dur'])}
+    delay_ = {p_: _num(d) for p_, d in zip(pairs, case['delay'])}
     keep = set(p_ for p_ in pairs if delay_[p_] <= dur_[p_[0]])
     for w in (True, False):
         bname = 'nonMarkov_directed_percolate_network_with_timing'
@@ -206,8 +220,8 @@ def prop_contact(case):
             fails.append(Failure('%s:exception:%s' % (bname, exc_signature(e)), 'raised %r' % (e,)))
     # with timing
     name = 'estimate_nonMarkov_SIR_prob_size_with_timing'
-    dur = {u: float('inf') if d == 'inf' else d for u, d in zip(nodes, case['dur'])}
-    delay = {p: float('inf') if d == 'inf' else d for p, d in zip(pairs, case['delay'])}
+    dur = {u: _num(d) for u, d in zip(nodes, case['dur'])}
+    delay = {p: _num(d) for p, d in zip(pairs, case['delay'])}
     try:
         pair = EoN.estimate_nonMarkov_SIR_prob_size_with_timing(G, lambda u, v, s: delay[(u, v)] * s, lambda u, a, b: dur[u],
                                                                 trans_time_args=(1,), rec_time_args=(0, 0))
@@ -221,7 +235,7 @@ def prop_contact(case):
     sim, orig = _spy('EoN.simulation', 'percolate_network', cap)
     try:
         random.seed(case['seed'])
-        pair = EoN.estimate_SIR_prob_size(G, case['p'])
+        pair = EoN.estimate_SIR_prob_size(Gsimple, case['p'])
         if cap:
             Hp = cap[-1]
             und = {u: list(Hp.neighbors(u)) for u in nodes}
@@ -253,7 +267,7 @@ def prop_contact(case):
     sim, orig = _spy('EoN.simulation', 'directed_percolate_network', cap2)
     try:
         random.seed(case['seed'] + 1)
-        pair = EoN.estimate_directed_SIR_prob_size(G, case['tau'], case['gamma'])
+        pair = EoN.estimate_directed_SIR_prob_size(Gsimple, case['tau'], case['gamma'])
         if cap2:
             Hd = cap2[-1]
             if set(Hd.nodes()) != set(nodes) or not set(Hd.edges()) <= set(pairs):
@@ -268,7 +282,7 @@ def prop_contact(case):
         if sim is not None:
             sim.directed_percolate_network = orig
     nt = len(want_edges) >= 1 and len(want_edges) < len(pairs) and N >= 3
-    return Result(fails, nontrivial=nt, classes=['rule=' + case['rule'], 'answers=' + case.get('numtype', 'float')] + (['spied'] if cap and cap2 else ['not-spied']))
+    return Result(fails, nontrivial=nt, classes=['rule=' + case['rule'], 'answers=' + case.get('numtype', 'float')] + (['multigraph'] if G is not Gsimple else []) + (['nan-timing'] if 'nan' in case['dur'] + case['delay'] else []) + (['spied'] if cap and cap2 else ['not-spied']))
 
 
 def replay(ctx, sub, case):
